@@ -1005,6 +1005,8 @@ class GSym(Sym):
                     return ('(!%s)' % a, 'bool')
                 if name in ('and', 'or') and ts == ['bool']:
                     return ('(%s %s %s)' % (a, '&&' if name == 'and' else '||', av[0][0]), 'bool')
+                if name == 'xor' and ts == ['bool']:
+                    return ('(%s != %s)' % (a, av[0][0]), 'bool')
                 if name == 'is_eq' and ts == ['bool']:
                     return ('(%s == %s)' % (a, av[0][0]), 'bool')
                 if name == 'enforce_equal' and ts == ['bool']:
@@ -1012,8 +1014,18 @@ class GSym(Sym):
                     return ('()', 'unit')
                 if name == 'select' and ts == ['fq', 'fq']:
                     return ('(if %s then %s else %s)' % (a, av[0][0], av[1][0]), 'fq')
+            if t == 'bits' and name in ('swap_remove', 'remove') and e[3] == [('num', 0)]:
+                return ('(%s %% 2 == 1)' % a, 'bool')
             if t == 'pair' and name == 'is_eq' and ts == ['pair']:
                 raise Untranslatable('nested ElementVar::is_eq')
+            if name not in TRANSLATED_METHODS and name not in ('isqrt', 'is_eq', 'inverse', 'negate'):
+                hp = self.method_helper(name, len(av))
+                if hp is not None and self.depth <= 6:
+                    self.depth += 1
+                    try:
+                        return self.ev_block(hp[1], dict(zip(hp[0], [(a, t)] + av)))
+                    finally:
+                        self.depth -= 1
             raise Untranslatable('gadget method .%s on %s%s' % (name, t, ts))
         if k == 'call':
             if e[1][0] != 'path':
@@ -1066,6 +1078,8 @@ class GSym(Sym):
                 return (a, 'pair')
             if t == 'pair' and e[2] in ('x', 'y'):
                 return (a['xy'.index(e[2])], 'fq')
+            if t == 'tuple' and e[2].isdigit() and int(e[2]) < len(a):
+                return a[int(e[2])]
             raise Untranslatable('gadget field .%s of %s' % (e[2], t))
         if k == 'index':
             a, t = self.ev(e[1], env)
